@@ -79,7 +79,22 @@ type c13Blk struct {
 	Txs        []string // descriptions (not part of the model input)
 	TxCodes    []uint32
 	AppHash    string
+	WTxs       []c13WTx // WITHDRAW_REWARD transactions of the block, with the records around them
 }
+
+// one WITHDRAW_REWARD transaction on the real app: amount field as sent (whole OLT), the validator's
+// cumulative records and the rewards pool right before it, CheckTx / DeliverTx verdicts, records after
+type c13WTx struct {
+	Value     string
+	Bal, Wd   string
+	Pool      string
+	CheckOk   bool
+	DeliverOk bool
+	Bal2, Wd2 string
+}
+
+// corpus values injected as WITHDRAW_REWARD amounts into the first blocks of every chain
+var c13CorpusWValues []string
 
 type c13Chain struct {
 	Index  int
@@ -458,6 +473,7 @@ func c13RunChain(seed int64, idx int, nblocks int) c13Chain {
 			}
 		}
 		// transactions of this block
+		wmeta := map[int][2]string{} // tx index -> (validator address, amount) of WITHDRAW_REWARD transactions
 		ntx := r.Intn(3)
 		for i := 0; i < ntx; i++ {
 			switch r.Intn(7) {
@@ -481,10 +497,18 @@ func c13RunChain(seed int64, idx int, nblocks int) c13Chain {
 				blk.Txs = append(blk.Txs, "undelegate "+a)
 			case 5, 6:
 				v := w.Vals[r.Intn(len(w.Vals))]
-				a := []string{"1", "3", "100", "100000000", "-2"}[r.Intn(5)] // withdrawTx.Validate does not reject a negative amount
+				a := []string{"1", "3", "100", "100000000", "-2", "0", "-9223372036854775808"}[r.Intn(7)] // negative amounts must be refused (45cfd0d)
 				in.Txs = append(in.Txs, txWithdrawReward(v, oltAmt(a), memo()))
 				blk.Txs = append(blk.Txs, "withdraw-reward "+a)
+				wmeta[len(in.Txs)-1] = [2]string{v.Val.Addr.String(), a}
 			}
+		}
+		if b >= 7 && b-7 < len(c13CorpusWValues) {
+			v := w.Vals[0]
+			a := c13CorpusWValues[b-7]
+			in.Txs = append(in.Txs, txWithdrawReward(v, oltAmt(a), memo()))
+			blk.Txs = append(blk.Txs, "withdraw-reward "+a)
+			wmeta[len(in.Txs)-1] = [2]string{v.Val.Addr.String(), a}
 		}
 
 		// ---- pre-state, side pulls, BeginBlock, post-state ----
@@ -567,9 +591,23 @@ func c13RunChain(seed int64, idx int, nblocks int) c13Chain {
 			}
 		}
 
-		for _, tx := range in.Txs {
+		for i, tx := range in.Txs {
+			wm, isW := wmeta[i]
+			var wt c13WTx
+			if isW {
+				pv := rep.View()
+				wt = c13WTx{Value: wm[1], Bal: c13Amt(pv, "rwcum_balance_"+wm[0]), Wd: c13Amt(pv, "rwcum_withdrawn_"+wm[0]),
+					Pool: c13Amt(pv, "b_"+c13RewardPool.String()+"_OLT")}
+				wt.CheckOk = rep.CheckTx(tx).Code == 0
+			}
 			res := rep.DeliverTx(tx)
 			blk.TxCodes = append(blk.TxCodes, res.Code)
+			if isW {
+				av := rep.View()
+				wt.DeliverOk = res.Code == 0
+				wt.Bal2, wt.Wd2 = c13Amt(av, "rwcum_balance_"+wm[0]), c13Amt(av, "rwcum_withdrawn_"+wm[0])
+				blk.WTxs = append(blk.WTxs, wt)
+			}
 		}
 		rep.EndBlock()
 		blk.AppHash = rep.Commit()
@@ -596,7 +634,7 @@ func c13ProbeNegWithdraw() {
 		rep.RunBlock(&BlockIn{})
 	}
 	show("after 6 blocks")
-	for _, a := range []string{"-2", "1", "-9223372036854775807"} {
+	for _, a := range []string{"-2", "1", "18446744073709551614", "0"} {
 		res := rep.RunBlock(&BlockIn{Txs: [][]byte{txWithdrawReward(v, oltAmt(a), "probe"+a)}})
 		say("WITHDRAW_REWARD %s OLT: code=%d log=%.120s\n", a, res.Txs[0].Code, res.Txs[0].Log)
 		show("  state after")
@@ -781,14 +819,19 @@ func c13CoqBlk(b c13Blk) string {
 	for _, y := range b.ObYears {
 		oy = append(oy, fmt.Sprintf("(%s, %s)", c13Z(y[0]), c13Z(y[1])))
 	}
-	return fmt.Sprintf("mkBlk %d %s %s %s %s\n   %s %s\n   %s %s %s %d\n   %s\n   %s %s %s %s\n   %s %s\n   %s %s %s",
+	ws := []string{}
+	for _, w := range b.WTxs {
+		ws = append(ws, fmt.Sprintf("mkWtx %s %s %s %s %s %s %s %s", c13Z(w.Value), c13Z(w.Bal), c13Z(w.Wd), c13Z(w.Pool),
+			c13B(w.CheckOk), c13B(w.DeliverOk), c13Z(w.Bal2), c13Z(w.Wd2)))
+	}
+	return fmt.Sprintf("mkBlk %d %s %s %s %s\n   %s %s\n   %s %s %s %d\n   %s\n   %s %s %s %s\n   %s %s\n   %s %s %s\n   %s",
 		b.H, c13B(b.Restart), c13ZI(b.T1), c13ZI(b.Tb), c13ZI(b.Te),
 		c13List(ys), c13Z(b.Pool),
 		c13List(vs), c13Z(b.Dp), c13List(ds), b.Prop,
 		c13ZList(b.MaturedIn),
 		c13B(b.PullOk), c13Z(b.Pull), c13B(b.ColdOk), c13Z(b.Cold),
 		c13List(oy), c13Z(b.ObConsumed),
-		c13ZList(b.ObVals), c13ZList(b.ObDelegs), c13ZList(b.ObMatured))
+		c13ZList(b.ObVals), c13ZList(b.ObDelegs), c13ZList(b.ObMatured), c13List(ws))
 }
 
 func c13CoqChain(c c13Chain) string {
@@ -862,8 +905,12 @@ func c13Main(args []string) int {
 	tag := fs.String("tag", "0", "suffix of the output files")
 	fs.BoolVar(&c13Honest, "honest", false, "whole-app chains with the devnet reward options and ordinary block times")
 	replayP := fs.String("replay-pcases", "", "JSON file with a list of calculator runs (inputs) to execute first")
+	corpusW := fs.String("corpus-wvalues", "", "comma separated WITHDRAW_REWARD amounts injected into blocks 8.. of every chain")
 	probe := fs.Bool("probe-negwd", false, "probe: WITHDRAW_REWARD with a negative amount on the real app")
 	fs.Parse(args)
+	if *corpusW != "" {
+		c13CorpusWValues = strings.Split(*corpusW, ",")
+	}
 	if *probe {
 		c13ProbeNegWithdraw()
 		return 0
@@ -964,6 +1011,13 @@ func c13Main(args []string) int {
 			}
 			if nz {
 				inc("chain.matured>0")
+			}
+			for _, w := range b.WTxs {
+				k := "nonneg"
+				if strings.HasPrefix(w.Value, "-") {
+					k = "negative"
+				}
+				inc(fmt.Sprintf("chain.withdraw_reward.%s.check=%v.deliver=%v", k, w.CheckOk, w.DeliverOk))
 			}
 			for i, c := range b.TxCodes {
 				inc(fmt.Sprintf("chain.tx.%s.code%d", strings.Fields(b.Txs[i])[0], c))
